@@ -3,6 +3,7 @@ package lmux
 import (
 	"errors"
 	"net"
+	"sync"
 	"sync/atomic"
 	"time"
 
@@ -31,6 +32,7 @@ func New(maxOnlineA int) *ListenerMux {
 
 // ListenerMux manages listeners and handle the connection dispatching logic.
 type ListenerMux struct {
+	wg         sync.WaitGroup
 	shutdown   bool
 	listeners  map[net.Listener]listenerAB
 	chClose    chan struct{}
@@ -76,7 +78,9 @@ func (lm *ListenerMux) Start() {
 	}
 	lm.shutdown = false
 	for k, v := range lm.listeners {
+		lm.wg.Add(1)
 		go func(l net.Listener, listenerA *ChanListener, listenerB *ChanListener) {
+			defer lm.wg.Done()
 			for !lm.shutdown {
 				c, err := l.Accept()
 				if err != nil {
@@ -120,7 +124,16 @@ func (lm *ListenerMux) Stop() {
 		_ = ab.a.Close()
 		_ = ab.b.Close()
 	}
+	// wait for the accepting goroutines to exit, no connection is
+	// dispatched after that.
+	lm.wg.Wait()
 	close(lm.chClose)
+	// the connections which have been accepted but not been taken by the
+	// ChanListeners' users would never be handled or closed, close them.
+	for _, ab := range lm.listeners {
+		ab.a.closeQueued()
+		ab.b.closeQueued()
+	}
 }
 
 // DecreaseOnlineA decreases the online num of ChanListener A.
@@ -147,6 +160,23 @@ func (l *ChanListener) Accept() (net.Conn, error) {
 		return e.conn, e.err
 	case <-l.chClose:
 		return nil, net.ErrClosed
+	}
+}
+
+// closeQueued closes the connections left in the event channel.
+//
+//go:norace
+func (l *ChanListener) closeQueued() {
+	for {
+		select {
+		case e := <-l.chEvent:
+			if e.conn != nil {
+				_ = e.conn.Close()
+				l.Decrease()
+			}
+		default:
+			return
+		}
 	}
 }
 
